@@ -114,6 +114,10 @@ class Render:
             return _dart(ind, "snax_nonexistent", "i64")
         if k == "call":  # ["call", callee name]: a call of another function of the module (or of a declaration)
             return f'{ind}func.call @{node[1]}({", ".join(ARG_NAMES)}) : ({", ".join(ARG_TYPES)}) -> ()'
+        if k == "corecall":  # a call of snax_cluster_core_idx that is part of the program; its result may be used
+            r = self.fresh()
+            vis.append((r, "i32"))
+            return f'{ind}{r} = func.call @snax_cluster_core_idx() : () -> i32'
         if k == "sync":
             return f'{ind}"snax.cluster_sync_op"() : () -> ()'
         if k == "op":  # ["op", nres, nuses]
@@ -214,6 +218,8 @@ def render(case):
             out.append(f"func.func {vis_kw}@{fn['name']}({', '.join(ARG_TYPES)}) -> ()\n")
         else:
             out.append(Render().func(fn["blocks"], fn["name"], fn["vis"]))
+    if case.get("predeclared"):  # the module already declares snax_cluster_core_idx (e.g. it went through the pass before)
+        out.insert(0 if case["predeclared"] == "first" else len(out), "func.func private @snax_cluster_core_idx() -> i32\n")
     return "".join(out)
 
 
@@ -223,7 +229,7 @@ def render(case):
 
 LEAVES = [("copy", 20), ("gen", 15), ("alu", 5), ("xadd32", 5), ("xadd64", 2), ("xadd8", 1), ("xmul32", 2), ("xnogen", 3), ("gent", 3),
           ("xresc", 12),
-          ("sync", 4), ("op", 35)]
+          ("sync", 4), ("corecall", 2), ("op", 35)]
 
 
 def gen_leaf(rng, mal):
@@ -325,8 +331,13 @@ def gen_case(rng, tier, mal=False):
         who = rng.choice(names)
         fn = next(f for f in funcs if f["name"] == who)
         insert_call(rng, rng.choice(fn["blocks"])["ops"], "ext")
-    return {"kind": "malformed" if mal else f"mod{nf}", "funcs": funcs, "nb": rng.choice([1, 2, 2, 2, 3, 3, 4, 5]),
+    case = {"kind": "malformed" if mal else f"mod{nf}", "funcs": funcs, "nb": rng.choice([1, 2, 2, 2, 3, 3, 4, 5]),
             "xseed": rng.getrandbits(16)}
+    has_cc = '"corecall"' in __import__("json").dumps(funcs)
+    if has_cc or rng.random() < 0.08:
+        # a program that calls snax_cluster_core_idx must declare it; "last" is where the pass itself puts the declaration
+        case["predeclared"] = "first" if rng.random() < 0.7 else "last"
+    return case
 
 
 # ------------------------------------------------------------------------------------------------
@@ -392,6 +403,8 @@ def descriptor(op):
         return ["copy"]
     if isinstance(op, linalg.GenericOp):
         return ["generic"]
+    if op.name == "func.call" and op.callee.string_value() == "snax_cluster_core_idx" and get_id(op) is not None:
+        return ["corecall"]
     if isinstance(op, dart.StreamingRegionOpBase):
         ctx = the_ctx()
         if not op.accelerator:
@@ -440,9 +453,9 @@ class Conv:
             raise Unsupported(f"op without id: {op.name}")
         d = descriptor(op)
         has_inner = any(True for r in op.regions for b in r.blocks for _ in b.ops)
-        if d != ["other"]:
+        if d not in (["other"], ["corecall"]):
             for o in op.walk():
-                if o is not op and descriptor(o) != ["other"]:
+                if o is not op and descriptor(o) not in (["other"], ["corecall"]):
                     raise Unsupported("dispatchable op nested in a dispatchable op")
             return ["leaf", i, d, has_inner]
         if not op.regions:
@@ -510,9 +523,20 @@ class Conv:
         return {"pre": pre, "blocks": out}
 
 
-def has_decl(mod):
+def layout(mod):
+    """module order of the func.func ops: function names, "coredecl" for the declaration of snax_cluster_core_idx"""
     from xdsl.dialects import func
-    return any(isinstance(o, func.FuncOp) and o.sym_name.data == "snax_cluster_core_idx" for o in mod.ops)
+    return ["coredecl" if o.sym_name.data == "snax_cluster_core_idx" else o.sym_name.data
+            for o in mod.ops if isinstance(o, func.FuncOp)]
+
+
+def has_decl(mod):
+    return count_decl(mod) > 0
+
+
+def count_decl(mod):
+    from xdsl.dialects import func
+    return sum(1 for o in mod.ops if isinstance(o, func.FuncOp) and o.sym_name.data == "snax_cluster_core_idx")
 
 
 # ------------------------------------------------------------------------------------------------
@@ -606,7 +630,7 @@ class Interp:
                 return ("br", blocks.index(op.then_block if d != 0 else op.else_block))
             if op.has_trait(IsTerminator, value_if_unregistered=False) and not op.regions:
                 return None
-            if descriptor(op) != ["other"] or not op.regions:
+            if descriptor(op) not in (["other"], ["corecall"]) or not op.regions:
                 self.trace.append(i)
                 if self.follow and isinstance(op, func.CallOp):
                     callee = has_body(self.mod, op.callee.string_value())
@@ -642,6 +666,79 @@ def funcs_of(mod):
     """all func.func ops of the module except the declaration the pass inserts"""
     from xdsl.dialects import func
     return [o for o in mod.ops if isinstance(o, func.FuncOp) and o.sym_name.data != "snax_cluster_core_idx"]
+
+
+def guard_core(if_op):
+    """core id tested by an inserted scf.if: its condition must be `arith.cmpi eq, <core-id call>, <constant>`"""
+    from xdsl.dialects import arith, func
+    c = if_op.cond.owner
+    if not isinstance(c, arith.CmpiOp) or c.predicate.value.data != 0:
+        return None
+    call, cst = c.lhs.owner, c.rhs.owner
+    if not (isinstance(call, func.CallOp) and get_id(call) is None and call.callee.string_value() == "snax_cluster_core_idx"):
+        return None
+    if not isinstance(cst, arith.ConstantOp):
+        return None
+    return cst.value.value.data
+
+
+def static_guards(f, nb, cls):
+    """None if every program op of f is enclosed by exactly the guards its class asks for, else a description"""
+    from xdsl.dialects import scf
+    for op in f.walk():
+        i = get_id(op)
+        if i is None:
+            continue
+        stack = []
+        cur = op
+        while cur.parent_op() is not None and cur.parent_op() is not f:
+            par = cur.parent_op()
+            if get_id(par) is None:
+                if not isinstance(par, scf.IfOp):
+                    return f"op {i} ({op.name}) is nested in an inserted {par.name}"
+                blk = cur.parent_block()
+                if blk.parent_region() is not par.true_region:
+                    return f"op {i} ({op.name}) was put in the ELSE branch of an inserted scf.if (runs on every OTHER core)"
+                g = guard_core(par)
+                if g is None:
+                    return f"op {i} ({op.name}) is under an inserted scf.if whose condition is not `core_id == constant`"
+                stack.append(g)
+            cur = par
+        stack.reverse()
+        # the guards of an enclosing dispatched op (e.g. linalg.generic) also enclose the ops nested in it
+        want = []
+        for anc in list(reversed(ancestors(op, f))) + [op]:
+            if get_id(anc) is not None:
+                dm, cp = cls[get_id(anc)]
+                want += ([nb - 1] if dm else []) + ([0] if cp else [])
+        if stack != want:
+            return (f"op {i} ({op.name}) is guarded by core conditions {stack} (outermost first); the rules ask for {want}")
+    return None
+
+
+def ancestors(op, f):
+    out = []
+    cur = op.parent_op()
+    while cur is not None and cur is not f:
+        out.append(cur)
+        cur = cur.parent_op()
+    return out
+
+
+def skeleton(f):
+    """the function with every op that carries no id erased (bodies of erased scf.if kept in place): nested lists of ids"""
+    def blk(b):
+        out = []
+        for op in b.ops:
+            i = get_id(op)
+            if i is None:
+                for r in op.regions:
+                    for bb in r.blocks:
+                        out += blk(bb)
+            else:
+                out.append([i, [[blk(bb) for bb in r.blocks] for r in op.regions]])
+        return out
+    return [blk(b) for b in f.body.blocks]
 
 
 def real_rules(func_op):
@@ -748,8 +845,19 @@ class C14(Prop):
     PARALLEL = True
     USES_IMPL = True
     FIXED = True  # the committed files expect fixes/F04-dispatch-regions-all-blocks.diff applied to the tree under test
+
+    @property
+    def RULES_FIXED(self):
+        """which dispatch_to_compute the tree under test is expected to have: the one with fixes/FC14a iff finding DC14a is
+        listed as fixed in known_findings.json (single switch: flip the status there when the fix is committed to /repo)"""
+        if not hasattr(self, "_rules_fixed"):
+            import framework
+            _, fixed = framework.load_findings(self.id)
+            self._rules_fixed = any(f["id"] == "DC14a" for f in fixed)
+        return self._rules_fixed
     trusted_base = [
-        "modelled: DispatchRegionsRewriter.match_and_rewrite incl. dispatcher (dispatch_regions.py WITH fix F04) and "
+        "modelled: DispatchRegions.apply on a whole module (both patterns in module order, InsertFunctionDeclaration incl. the "
+        "replace-existing-declaration crash DC14b), DispatchRegionsRewriter.match_and_rewrite incl. dispatcher (dispatch_regions.py WITH fix F04) and "
         "dispatch_to_dm / dispatch_to_compute (dispatching_rules.py) as decision tables over op kind, accelerator class, "
         "first body op and the per-extension is_same_kernel results (those are evaluated by the real helper and shipped)",
         "xDSL's function-constant-pinning is NOT modelled (model: the annotated call becomes the constant); its output is "
@@ -765,7 +873,8 @@ class C14(Prop):
         "SSA validity of the output is outside the property: a dispatchable op whose result is used after it is moved under the "
         "guard without yielding the result (observed, reported in the notes)",
     ]
-    rule = ("random modules of 1-3 functions with bodies (public / private / no visibility keyword, earlier functions may call later "
+    rule = ("modules that already declare snax_cluster_core_idx (before or after the functions) and/or call it from the program, with and "
+            "without anything to dispatch (enumerated every run, and in ~10% of the random modules); random modules of 1-3 functions with bodies (public / private / no visibility keyword, earlier functions may call later "
             "ones at any depth) and optionally an external declaration (which may be called); every (visibility x small body), "
             "caller/callee visibility pair and declaration module enumerated on every run; per function: 1-3 (thorough 1-4) blocks with cf.br/cf.cond_br incl. back edges, nested scf.if (with/without else, "
             "with results) / scf.for / unknown ops with 1-3 regions, leaves memref.copy, linalg.generic (memref and tensor form), "
@@ -782,6 +891,7 @@ class C14(Prop):
         yield from self.upstream()
         yield from self.visibilities()
         yield from self.xdma_kernels()
+        yield from self.declarations()
         if tier == "thorough":
             yield from self.exhaustive()
 
@@ -800,6 +910,31 @@ class C14(Prop):
             if src.strip():
                 for nb in (2, 3):
                     yield {"kind": "upstream", "src": src, "nb": nb, "xseed": i}
+
+    def declarations(self):
+        """InsertFunctionDeclaration: modules that already call / already declare snax_cluster_core_idx, with and without
+        anything to dispatch, one and two functions"""
+        bodies = [[["op", 0, 0]], [["corecall"], ["op", 0, 1]], [["copy"]], [["corecall"], ["gen"], ["copy"]],
+                  [["for", [["corecall"], ["op", 0, 1]]]]]
+        i = 0
+        for pre in (None, "first", "last"):
+            for ops in bodies:
+                if pre is None and any(n[0] == "corecall" or (n[0] == "for" and any(m[0] == "corecall" for m in n[1])) for n in ops):
+                    continue
+                i += 1
+                c = {"kind": "decl", "blocks": [{"ops": ops, "term": ["ret"]}], "nb": 2, "xseed": 200 + i}
+                if pre:
+                    c["predeclared"] = pre
+                yield c
+            if pre is None:
+                continue
+            i += 1
+            c = {"kind": "decl", "nb": 3, "xseed": 200 + i, "funcs": [
+                {"name": "f0", "vis": "public", "blocks": [{"ops": [["op", 0, 0], ["call", "f1"]], "term": ["ret"]}]},
+                {"name": "f1", "vis": "private", "blocks": [{"ops": [["corecall"], ["op", 0, 1]], "term": ["ret"]}]}]}
+            if pre:
+                c["predeclared"] = pre
+            yield c
 
     def xdma_kernels(self):
         """every kernel x type combination on the xDMA (the extension kernels rescale down i32->i8, rescale up i8->i32, add i32
@@ -844,6 +979,15 @@ class C14(Prop):
                                                               {"ops": [list(s) for s in seq[cut:]], "term": ["ret"]}],
                                    "nb": nb, "xseed": 1}
 
+    @property
+    def DECL_FIXED(self):
+        """fixes/FC14b expected in the tree under test iff finding DC14b is listed as fixed in known_findings.json"""
+        if not hasattr(self, "_decl_fixed"):
+            import framework
+            _, fixed = framework.load_findings(self.id)
+            self._decl_fixed = any(f["id"] == "DC14b" for f in fixed)
+        return self._decl_fixed
+
     # -- implementation ------------------------------------------------------------------------
     def impl(self, case):
         from xdsl.traits import IsTerminator
@@ -874,7 +1018,7 @@ class C14(Prop):
                     ksigs.append([get_id(op)] + sig + [descriptor(op)[3]])
         nb = case["nb"]
         orig = mod.clone()
-        base = {"names": names, "inputs": inputs, "rules": rules, "ksigs": ksigs}
+        base = {"names": names, "inputs": inputs, "rules": rules, "ksigs": ksigs, "layout_in": layout(mod)}
         try:
             apply_dispatch(mod, nb)
         except BaseException as e:
@@ -897,21 +1041,24 @@ class C14(Prop):
                 traces.append([fi, -1, s, trace_of(orig, 0, s, names[fi], follow=False)])
         vis = [None if f.sym_visibility is None else f.sym_visibility.data for f in after]
         vis0 = [None if f.sym_visibility is None else f.sym_visibility.data for f in funcs_of(orig)]
-        return dict(base, funcs=outs, decl=has_decl(mod), traces=traces, filtered=traces, visibility_kept=(vis == vis0))
+        return dict(base, funcs=outs, layout_out=layout(mod), traces=traces, filtered=traces, visibility_kept=(vis == vis0))
 
     # -- model ---------------------------------------------------------------------------------
     def requests(self, case, impl_out):
         if "inputs" not in impl_out:
             return []
-        reqs = [{"fn": "c14.rules", "args": {"kind": r[1]}} for r in impl_out["rules"]]
-        for inp in impl_out["inputs"]:  # the pattern is applied to every func.func of the module independently
-            reqs.append({"fn": "c14.dispatch", "args": {"nb": case["nb"], "func": inp, "fixed": self.FIXED}})
+        rf = self.RULES_FIXED
+        reqs = [{"fn": "c14.rules", "args": {"kind": r[1], "rules": rf}} for r in impl_out["rules"]]
+        # the whole pass on the module: both patterns, functions and the core-id declaration in module order
+        by_name = dict(zip(impl_out["names"], impl_out["inputs"]))
+        items = ["coredecl" if n == "coredecl" else {"fn": by_name[n]} for n in impl_out["layout_in"]]
+        reqs.append({"fn": "c14.module", "args": {"nb": case["nb"], "items": items, "rules": rf, "declfix": self.DECL_FIXED}})
         for fi, core, s, _ in impl_out.get("traces", []):
             # the Lean semantics on the converted REAL output (ties runF to the interpreter) ...
             fn = impl_out["inputs"][fi] if core < 0 else impl_out["funcs"][fi]
             reqs.append({"fn": "c14.run", "args": {"func": fn, "core": max(core, 0), "seed": s, "fuel": FUEL, "entry": 0}})
             # ... and the right-hand side of C14_dispatch on the input (the theorem instance itself)
-            reqs.append({"fn": "c14.filtered", "args": {"func": impl_out["inputs"][fi], "nb": case["nb"] if core >= 0 else 1,
+            reqs.append({"fn": "c14.filtered", "args": {"func": impl_out["inputs"][fi], "nb": case["nb"] if core >= 0 else 1, "rules": rf,
                                                        "core": max(core, 0), "seed": s, "fuel": FUEL, "entry": 0}})
         for k in impl_out["ksigs"]:  # last: the Lean table of extension kernels against XDMA_EXT_SET's is_same_kernel
             reqs.append({"fn": "c14.matches", "args": {"name": k[1], "tys": k[2]}})
@@ -921,7 +1068,6 @@ class C14(Prop):
         if "inputs" not in impl_out:
             return impl_out
         nr = len(impl_out["rules"])
-        nf = len(impl_out["inputs"])
         rules = []
         for r, a in zip(impl_out["rules"], answers[:nr]):
             if "err" in a:
@@ -935,19 +1081,19 @@ class C14(Prop):
             if "err" in a:
                 return {"model_error": a["err"]}
             ksigs.append([k[0], k[1], k[2], a["ok"]])
-        base = {"names": impl_out["names"], "inputs": impl_out["inputs"], "rules": rules, "ksigs": ksigs}
-        outs = []
-        decl = False
-        for d in answers[nr:nr + nf]:
-            if "err" in d:
-                return {"model_error": d["err"]}
-            if "raised" in d["ok"]:  # functions are rewritten in module order: the first one whose rules raise aborts the pass
-                return dict(base, raised=d["ok"]["raised"])
-            outs.append(d["ok"]["func"])
-            decl = decl or d["ok"]["decl"]
-        out = dict(base, funcs=outs, decl=decl, visibility_kept=True)
+        base = {"names": impl_out["names"], "inputs": impl_out["inputs"], "rules": rules, "ksigs": ksigs,
+                "layout_in": impl_out["layout_in"]}
+        d = answers[nr]
+        if "err" in d:
+            return {"model_error": d["err"]}
+        if "raised" in d["ok"]:  # a rule raises in the first function (module order) that has such an op / the walker trips (DC14b)
+            return dict(base, raised=d["ok"]["raised"])
+        outs = [it["fn"] for it in d["ok"]["items"] if it != "coredecl"]
+        names = iter(impl_out["names"])
+        lay = ["coredecl" if it == "coredecl" else next(names) for it in d["ok"]["items"]]
+        out = dict(base, funcs=outs, layout_out=lay, visibility_kept=True)
         if "traces" in impl_out:
-            rest = answers[nr + nf:]
+            rest = answers[nr + 1:]
             out["traces"] = [[fi, core, s, a.get("ok", a)] for (fi, core, s, _), a in zip(impl_out["traces"], rest[0::2])]
             out["filtered"] = [[fi, core, s, a.get("ok", a)] for (fi, core, s, _), a in zip(impl_out["traces"], rest[1::2])]
         return out
@@ -973,6 +1119,17 @@ class C14(Prop):
         try:
             apply_dispatch(mod, nb)
         except BaseException as e:
+            # DC14b: the module already declares snax_cluster_core_idx AFTER a function that calls it once the first pattern ran
+            lay = layout(orig)
+            late = False
+            if "coredecl" in lay:
+                for n in lay[:lay.index("coredecl")]:
+                    late = late or any(cls[get_id(o)] != (False, False) or descriptor(o) == ["corecall"]
+                                       for o in find_func(orig, n).walk() if get_id(o) is not None)
+            if late and isinstance(e, ValueError) and "insertion point" in str(e) and not self.DECL_FIXED:
+                return [{"what": "dispatch-regions raises ValueError (the walker visits the detached old declaration) instead of dispatching: the "
+                                 "module declares snax_cluster_core_idx after a function that calls it -- e.g. any module that went through "
+                                 "dispatch-regions before", "finding": "DC14b"}]
             return [{"what": f"dispatch-regions raised {type(e).__name__} on a program on which the rules do not raise: {str(e)[:200]}",
                      "finding": None}]
         try:
@@ -989,7 +1146,7 @@ class C14(Prop):
             got = {(True, False): "dm", (False, True): "cp", (False, False): "all", (True, True): "dm+cp"}[cls[i]]
             if got != want:
                 foreign = (want == "cp" and got == "all" and descriptor(op)[:3] == ["stream", "xdma", True])
-                if foreign:
+                if foreign and not self.RULES_FIXED:
                     if not res:
                         res.append({"what": f"a streaming region on snax_xdma with a kernel no extension provides is an accelerator operation "
                                             f"but is claimed by neither dispatching rule: it executes on every core (op {i}, {op.name})",
@@ -1028,6 +1185,17 @@ class C14(Prop):
                     if got != exp[(fn, core, s)]:
                         return [{"what": f"function {desc}, nb_cores={nb}: core {core} (decisions seed {s}) executes ops {got} after "
                                          f"dispatching; the original filtered by the rules is {exp[(fn, core, s)]}", "finding": None}]
+        # static form (also covers ops no sampled execution reaches): every program op sits under exactly the guards the
+        # rules ask for -- `core == nb-1` iff dm, `core == 0` iff compute, always in the THEN branch of the inserted scf.if --
+        # and erasing the inserted ops gives back the original function
+        for f in bodies:
+            bad = static_guards(f, nb, cls)
+            if bad:
+                return [{"what": f"function @{f.sym_name.data}, nb_cores={nb}: {bad}", "finding": None}]
+            a, b = skeleton(f), skeleton(find_func(orig, f.sym_name.data))
+            if a != b:
+                return [{"what": f"function @{f.sym_name.data}: after erasing the inserted guards/prelude the ops are {a}, the original "
+                                 f"function is {b} (an op was lost, duplicated, reordered or moved to another region)", "finding": None}]
         # the pin_to_constants annotation, per function
         any_call = False
         for f in bodies:
@@ -1044,8 +1212,12 @@ class C14(Prop):
                 any_call = True
             elif calls:
                 return [{"what": f"function @{fn} has no dispatchable op but got a core-id call", "finding": None}]
-        if any_call and not has_decl(mod):
-            return [{"what": "snax_cluster_core_idx is called but not declared", "finding": None}]
+        prog_call = any(descriptor(o) == ["corecall"] for o in mod.walk())
+        want_decl = 1 if (any_call or prog_call or has_decl(orig)) else 0
+        if count_decl(mod) != want_decl:
+            return [{"what": f"the module has {count_decl(mod)} declarations of snax_cluster_core_idx after the pass, expected {want_decl} "
+                             f"(emitted call: {any_call}, call in the program: {prog_call}, declared before: {has_decl(orig)})",
+                     "finding": None}]
         for f in funcs_of(mod):
             if not f.body.blocks and snaxrun.text(find_func(orig, f.sym_name.data)) != snaxrun.text(f):
                 return [{"what": f"the external declaration @{f.sym_name.data} was changed", "finding": None}]
